@@ -875,7 +875,7 @@ def _rawbig(sh, case):
     for name, mk in raw_objects(p).items():
         try:
             s_, f = mk()
-            pieces, ev, hi = recover_partition(f, n0, extra=alias_edges(K) if name == "alias" else ())
+            pieces, ev, hi = recover_partition(f, n0, extra=alias_edges(K) if name == "alias" else (), max_pieces=max(100000, 4 * K))
         except Exception as e:  # noqa
             sh.violation(f"C02:rawbig:{name}:raises-{type(e).__name__}{sfx}", f"{label}: {e!r}", None)
             continue
